@@ -1,29 +1,43 @@
 import Driver.Util
-import PytezosModel.Michelson.Tickets
+import PytezosModel.Michelson.TicketsTyping
 open Driver Impl.Tickets
 
 /-! line protocol of C20.
 
-types   `nat` `string` `address` `unit` `pair <a> <b>` `option <t>` `list <t>` `map <k> <v>` `big_map <k> <v>` `ticket <t>`
-        (`ticket_bare` only in output)
-values  `N<dec>` `S<hex|->` `A<hex>` `U` `P <l> <r>` `none <ty>` `some <v>` `L<n> <ty> <v>…`
-        output only: `T <cls> <ticketer-hex> <contents> <amount>` · `M<n> <0|1> <kty> <vty> <k> <v>… R<m> <k>…`
+types   `nat` `string` `address` `unit` `bool` `pair <a> <b>` `or <a> <b>` `option <t>` `list <t>` `set <t>` `map <k> <v>`
+        `big_map <k> <v>` `ticket <t>` (`ticket_bare` only in output)
+values  `N<dec>` `S<hex|->` `A<hex>` `U` `B0` `B1` `P <l> <r>` `none <ty>` `some <v>` `L<n> <ty> <v>…` `left <v> <rty>`
+        `right <lty> <v>` `E<n> <ty> <atom>…` `M<n> <0|1> <kty> <vty> <k> <v>… R<m> <k>…`
+        output only: `T <cls> <ticketer-hex> <contents> <amount>`
 instrs  `TICKET` `READ_TICKET` `SPLIT_TICKET` `JOIN_TICKETS` `PAIR` `UNPAIR` `CAR` `CDR` `SOME` `NONE <ty>` `IF_NONE { … } { … }`
         `CONS` `NIL <ty>` `ITER { … }` `MAP { … }` `DUP` `DUPN:<n>` `SWAP` `DIG:<n>` `DUG:<n>` `DROP` `DIP { … }` `DIPN:<n> { … }`
         `PUSH <ty> <val>` `EMPTY_MAP <k> <v>` `EMPTY_BIG_MAP <k> <v>` `GET` `GET_AND_UPDATE` `UPDATE` `{ … }`
+        `LEFT <ty>` `RIGHT <ty>` `IF_LEFT { … } { … }` `EMPTY_SET <ty>` `MEM` `LAMBDA <a> <b> { … }` `EXEC` `APPLY`
+        (a lambda value is printed as `LAM <a> <b>`)
 line    `seg <self-hex> { … } seg <self-hex> { … } …`   (segments run one after the other on the same stack, each with its
         own self address)
-answer  `ok <typedStores 0|1> <k> <val>…` (final stack, top first) | `err <segment>` | `unmodelled` | `fuel` -/
+answer  `ok <typedStores 0|1> <static 0|1> <k> <val>…` (final stack, top first; `static` = every segment passed the type
+        checker `wellTyped` against the stack it started on) | `err <segment>` | `unmodelled` | `fuel` -/
 
 partial def readTy : List String → Option (Ty × List String)
   | "nat" :: r => some (.nat, r)
   | "string" :: r => some (.string, r)
   | "address" :: r => some (.address, r)
   | "unit" :: r => some (.unit, r)
+  | "bool" :: r => some (.bool, r)
   | "pair" :: r => do
     let (a, r) ← readTy r
     let (b, r) ← readTy r
     pure (.pair a b, r)
+  | "or" :: r => do
+    let (a, r) ← readTy r
+    let (b, r) ← readTy r
+    pure (.or a b, r)
+  | "set" :: r => (readTy r).map fun (t, r) => (.set t, r)
+  | "lambda" :: r => do
+    let (a, r) ← readTy r
+    let (b, r) ← readTy r
+    pure (.lambda a b, r)
   | "option" :: r => (readTy r).map fun (t, r) => (.option t, r)
   | "list" :: r => (readTy r).map fun (t, r) => (.list t, r)
   | "ticket" :: r => (readTy r).map fun (t, r) => (.ticket t, r)
@@ -43,9 +57,37 @@ def hexStr (h : String) : Option String := do
 
 def strHex (s : String) : String := toHex (s.toUTF8.data.toList.map UInt8.toNat)
 
+def readAtom (t : String) : Option Atom :=
+  let body := (t.drop 1).toString
+  match t.front with
+  | 'N' => body.toNat?.map .nat
+  | 'S' => (hexStr body).map .str
+  | 'A' => (hexStr body).map .addr
+  | 'U' => if body == "" then some .unit else none
+  | 'B' => if body == "1" then some (.bool true) else if body == "0" then some (.bool false) else none
+  | _ => none
+
+def readAtoms : Nat → List String → Option (List Atom × List String)
+  | 0, ts => some ([], ts)
+  | n + 1, t :: ts => do
+    let a ← readAtom t
+    let (as, r) ← readAtoms n ts
+    pure (a :: as, r)
+  | _, [] => none
+
 mutual
   partial def readVal : List String → Option (Val × List String)
     | "U" :: r => some (.atom .unit, r)
+    | "B0" :: r => some (.atom (.bool false), r)
+    | "B1" :: r => some (.atom (.bool true), r)
+    | "left" :: r => do
+      let (v, r) ← readVal r
+      let (t, r) ← readTy r
+      pure (.left v t, r)
+    | "right" :: r => do
+      let (t, r) ← readTy r
+      let (v, r) ← readVal r
+      pure (.right t v, r)
     | "P" :: r => do
       let (a, r) ← readVal r
       let (b, r) ← readVal r
@@ -63,8 +105,32 @@ mutual
         let (ty, r) ← readTy r
         let (xs, r) ← readVals n r
         pure (.list ty xs, r)
+      | 'E' => do
+        let n ← body.toNat?
+        let (ty, r) ← readTy r
+        let (xs, r) ← readAtoms n r
+        pure (.set ty xs, r)
+      | 'M' => do
+        let n ← body.toNat?
+        match r with
+        | b :: r =>
+          let (kt, r) ← readTy r
+          let (vt, r) ← readTy r
+          let (kvs, r) ← readItems n r
+          match r with
+          | "R0" :: r => pure (.map (b == "1") kt vt (kvs.map (·.1)) (kvs.map (·.2)) [], r)
+          | _ => none
+        | [] => none
       | _ => none
     | [] => none
+  partial def readItems : Nat → List String → Option (List (Atom × Val) × List String)
+    | 0, ts => some ([], ts)
+    | n + 1, t :: ts => do
+      let k ← readAtom t
+      let (v, r) ← readVal ts
+      let (rest, r) ← readItems n r
+      pure ((k, v) :: rest, r)
+    | _, [] => none
   partial def readVals : Nat → List String → Option (List Val × List String)
     | 0, ts => some ([], ts)
     | n + 1, ts => do
@@ -94,6 +160,18 @@ mutual
       let (a, r) ← readBlock r
       let (b, r) ← readBlock r
       pure (.ifNone a b, r)
+    | "IF_LEFT" :: r => do
+      let (a, r) ← readBlock r
+      let (b, r) ← readBlock r
+      pure (.ifLeft a b, r)
+    | "LEFT" :: r => (readTy r).map fun (t, r) => (.left t, r)
+    | "RIGHT" :: r => (readTy r).map fun (t, r) => (.right t, r)
+    | "EMPTY_SET" :: r => (readTy r).map fun (t, r) => (.emptySet t, r)
+    | "LAMBDA" :: r => do
+      let (a, r) ← readTy r
+      let (b, r) ← readTy r
+      let (body, r) ← readBlock r
+      pure (.lambda a b body, r)
     | "ITER" :: r => (readBlock r).map fun (b, r) => (.iter b, r)
     | "MAP" :: r => (readBlock r).map fun (b, r) => (.map b, r)
     | "DIP" :: r => (readBlock r).map fun (b, r) => (.dip b, r)
@@ -123,6 +201,9 @@ mutual
       | ["GET"] => some (.get, r)
       | ["GET_AND_UPDATE"] => some (.getAndUpdate, r)
       | ["UPDATE"] => some (.update, r)
+      | ["MEM"] => some (.mem, r)
+      | ["EXEC"] => some (.exec, r)
+      | ["APPLY"] => some (.apply, r)
       | _ => none
     | [] => none
   partial def readBlock : List String → Option (List Instr × List String)
@@ -146,8 +227,11 @@ partial def readSegs : List String → Option (List (String × List Instr))
   | _ => none
 
 partial def showTy : Ty → List String
-  | .nat => ["nat"] | .string => ["string"] | .address => ["address"] | .unit => ["unit"]
+  | .nat => ["nat"] | .string => ["string"] | .address => ["address"] | .unit => ["unit"] | .bool => ["bool"]
   | .pair a b => "pair" :: showTy a ++ showTy b
+  | .or a b => "or" :: showTy a ++ showTy b
+  | .set t => "set" :: showTy t
+  | .lambda a b => "lambda" :: showTy a ++ showTy b
   | .option t => "option" :: showTy t
   | .list t => "list" :: showTy t
   | .map k v => "map" :: showTy k ++ showTy v
@@ -160,6 +244,7 @@ def showAtom : Atom → String
   | .str s => "S" ++ strHex s
   | .addr s => "A" ++ strHex s
   | .unit => "U"
+  | .bool b => if b then "B1" else "B0"
 
 partial def showCmp : Cmp → List String
   | .atom a => [showAtom a]
@@ -180,6 +265,10 @@ mutual
     | .map big k v keys vals removed =>
       [("M" ++ toString keys.length), (if big then "1" else "0")] ++ showTy k ++ showTy v
         ++ showItems keys vals ++ [("R" ++ toString removed.length)] ++ (removed.map showAtom).foldr insertSortedStr []
+    | .left v rt => "left" :: showVal v ++ showTy rt
+    | .right lt v => "right" :: showTy lt ++ showVal v
+    | .set t xs => ("E" ++ toString xs.length) :: showTy t ++ xs.map showAtom
+    | .lam a b _ => "LAM" :: showTy a ++ showTy b          -- the code is observed through EXEC only
   partial def showVals : List Val → List String
     | [] => []
     | x :: xs => showVal x ++ showVals xs
@@ -190,11 +279,12 @@ end
 
 def fuelOf (prog : List String) : Nat := 50 * prog.length + 1000
 
-partial def runSegs (fuel : Nat) : Nat → List (String × List Instr) → State → String
-  | _, [], s => joinWith " " (["ok", (if s.typedStores then "1" else "0"), toString s.items.length] ++ showVals s.items)
+partial def runSegs (fuel : Nat) (static : Bool) : Nat → List (String × List Instr) → State → String
+  | _, [], s =>
+    joinWith " " (["ok", (if s.typedStores then "1" else "0"), (if static then "1" else "0"), toString s.items.length] ++ showVals s.items)
   | j, (self, prog) :: rest, s =>
     match run cfg fuel prog { s with self := self, prot := 0 } with
-    | .ok s' => runSegs fuel (j + 1) rest s'
+    | .ok s' => runSegs fuel (static && wellTyped cfg prog s.items) (j + 1) rest s'
     | .error .fail => "err " ++ toString j
     | .error .unmodelled => "unmodelled"
     | .error .fuel => "fuel"
@@ -202,7 +292,7 @@ partial def runSegs (fuel : Nat) : Nat → List (String × List Instr) → State
 def handle (line : String) : String :=
   let ts := words line
   match readSegs ts with
-  | some segs => runSegs (fuelOf ts) 0 segs { items := [], prot := 0, self := "" }
+  | some segs => runSegs (fuelOf ts) true 0 segs { items := [], prot := 0, self := "" }
   | none => "bad-op"
 
 def main : IO Unit := mainWith handle
